@@ -321,7 +321,7 @@ def compare(part, prog, inputs, section):
                        ref[2], impl[2], size=size)
 
 
-INPUT_SETS = {"none": (), "3": (3,), "2,5": (2, 5), "list": ([1, 2],)}
+INPUT_SETS = {"none": (), "3": (3,), "2,5": (2, 5), "list": ([1, 2],), "repeats": ([0, 1, 0], 4)}
 
 
 def _e1_shard(args):
@@ -572,11 +572,33 @@ def run(tier, seed):
     else:
         g = Gen(ATOMS_FULL, mods=True, rich=True)
         p3 = g.programs(3)
-        explore.pmap(_e1_shard, [(c, list(INPUT_SETS), "E1 size<=3 full alphabet") for c in explore.chunks(p3, 256)], rep, seed)
+        explore.pmap(_e1_shard, [(c, ["none", "3", "2,5", "list"], "E1 size<=3 full alphabet") for c in explore.chunks(p3, 256)], rep, seed)
         g4 = Gen(ATOMS_CORE, mods=False, rich=False)
         p4 = g4.seqs(4)
         explore.pmap(_e1_shard, [(c, ["2,5"], "E1 size 4 core alphabet") for c in explore.chunks(p4, 256)], rep, seed)
         n_e1 = len(p3) + len(p4)
+    # E1b: every modifier around an explicit lambda of arity 2 / 3 whose body has SEVERAL consuming elements (state that only exists
+    # while the wrapped function runs), and eager higher-order elements (sort, reduce) with impure bodies over lists with repeats
+    lam_bodies = {2: [(E("+"), E("d")), (E(":"), E("+"), E("-")), (E("$"), E("-")), (E("-"), E("!"), E("+"))],
+                  3: [(E("-"), E("-")), (E("+"), E("*")), (E("_"), E("$"), E("-"))], 1: [(E(":"), E("+")), (E("d"), E("!"), E("+"))]}
+    modlam = []
+    for m_ in ("~", "&", "ß", "ƒ", "ɖ", "v"):
+        for k_, bodies_ in lam_bodies.items():
+            for b_ in bodies_:
+                for pre in ((N(1), N(2), N(3)), (N(9), N(4), N(2)), (N(5),), (("list", ((N(3),), (N(4),))), N(2))):
+                    modlam.append(pre + (("mod", m_, (("lam", k_, b_),)),))
+    for m_ in ("₌", "₍"):
+        for b_ in lam_bodies[2]:
+            modlam.append((N(1), N(2), N(3), ("mod", m_, (("lam", 2, b_), E("-")))))
+            modlam.append((N(1), N(2), N(3), ("mod", m_, (E("›"), ("lam", 2, b_)))))
+    rep_list = ("list", ((N(2),), (N(1),), (N(2),)))
+    impure = [(rep_list, ("sort", (E(","), N(0)))), (rep_list, ("sort", (E("…"),))), (rep_list, ("sort", (E("…"), E("N")))),
+              (N(0), E("£"), rep_list, ("sort", (E("¥"), E("›"), E("£"), E("¥"), E("N"))), E("¥")),
+              (N(0), E("£"), rep_list, ("sort", (E("_"), E("¥"), E("›"), E(":"), E("£"))), E("¥")),
+              (rep_list, ("lam", 2, (E("…"), E("+"))), E("R")), (N(0), E("£"), rep_list, ("lam", 2, (E("+"), E("¥"), E("›"), E("£"))), E("R"), E("¥")),
+              (E("?"), ("sort", (E(","), N(0)))), (E("?"), ("sort", (E("…"), E("N"))))]
+    explore.pmap(_e1_shard, [(c, list(INPUT_SETS), "E1b modifier x multi-element lambda / impure eager bodies")
+                             for c in explore.chunks(modlam + impure, 32)], rep, seed)
     # E2
     ce = chain_elements()
     cd = 3 if quick else 4
